@@ -77,10 +77,59 @@ fn shape(e: &ProgramEntry, cfg: &Cfg, sampled: bool) -> u64 {
     h.finish()
 }
 
+/// An output that takes at most `chunk` bytes per call, spread over as many of the offered buffers
+/// as that covers (what a BufWriter in front of a plain writer does): success must still mean
+/// complete lines, however the writes were cut.
+struct Chunked {
+    chunk: usize,
+    got: Vec<u8>,
+}
+impl std::io::Write for Chunked {
+    fn write(&mut self, buf: &[u8]) -> std::io::Result<usize> {
+        let n = buf.len().min(self.chunk);
+        self.got.extend_from_slice(&buf[..n]);
+        Ok(n)
+    }
+    fn write_vectored(&mut self, bufs: &[std::io::IoSlice<'_>]) -> std::io::Result<usize> {
+        let mut left = self.chunk;
+        let mut n = 0;
+        for b in bufs {
+            let take = b.len().min(left);
+            self.got.extend_from_slice(&b[..take]);
+            left -= take;
+            n += take;
+            if left == 0 {
+                break;
+            }
+        }
+        Ok(n)
+    }
+    fn flush(&mut self) -> std::io::Result<()> {
+        Ok(())
+    }
+}
+static PLAIN_FORMATS: std::sync::atomic::AtomicU64 = std::sync::atomic::AtomicU64::new(0);
+
 /// returns false on violation
 fn check_one(emf: &mut metrique_writer_format_emf::Emf, cfg: &Cfg, e: &ProgramEntry, sampling: Option<(f32, u64)>, rep: &Report) -> bool {
     let (res, bytes) = match sampling {
-        None => format_to_vec(emf, e),
+        None => {
+            let k = PLAIN_FORMATS.fetch_add(1, std::sync::atomic::Ordering::Relaxed);
+            if k % 3 == 0 {
+                let mut w = Chunked { chunk: 1 + (k.wrapping_mul(7919) % 400) as usize, got: vec![] };
+                let r = metrique_writer::format::Format::format(emf, e, &mut w);
+                (
+                    match r {
+                        Ok(()) => FmtResult::Ok,
+                        Err(metrique_writer::IoStreamError::Validation(v)) => FmtResult::Validation(v.to_string()),
+                        Err(metrique_writer::IoStreamError::Io(i)) => FmtResult::Io(i.to_string()),
+                    },
+                    w.got,
+                )
+            } else {
+                format_to_vec(emf, e)
+            }
+        }
         Some((rate, draw)) => {
             let mut s = emf.clone().with_sampling_and_rng(ScriptRng(draw));
             let mut out = vec![];
